@@ -71,9 +71,30 @@ Theorem C16_stamped_then_presented : forall sk now secs incoming ops now' given 
   unserialize V T secret mac tag_eqb dec_val as_time sk now' (serialize V T secret mac enc_val sk stored) =
   if (now + secs <? now')%Z then [] else dremove V "_expires" (fst (apply_ops V ops given)).
 Proof. exact (stamped_then_presented V T secret mac tag_eqb enc_val dec_val as_time of_time tag_eqb_spec dec_enc time_roundtrip). Qed.
+
+(* whole histories: any number of requests with any operations (sparing the reserved key), clock readings in
+   any order, with any tampering steps in between (anything the server did not sign) - at every request the
+   endpoint is given exactly what a plain dictionary with a forget-after time holds.  Expiry settings session,
+   never and numeric are all covered by [ex]. *)
+Theorem C16_history_refines_dict : forall sk ex h,
+  wf_history V T secret mac sk h ->
+  run_history V T secret mac tag_eqb enc_val dec_val as_time of_time sk ex (RAbsent T) h =
+  spec_history V T ex ([], None) h.
+Proof. exact (fresh_history_refines_dict V T secret mac tag_eqb enc_val dec_val as_time of_time tag_eqb_spec dec_enc time_roundtrip). Qed.
+
+(* the premise is met by a history with operations, a truncation-style tampering step and more requests *)
+Example C16_history_premise : forall sk (v : V),
+  wf_history V T secret mac sk
+    [HReq V T 10%Z [CSet V "a" v; CDel V "b"]; HTamper V T (RNoSeparator T); HReq V T 20%Z [CClear V]; HTamper V T (RParsed T None [None] true)].
+Proof.
+  intros sk v. simpl. repeat split; try (repeat constructor; unfold spares; simpl; discriminate).
+  - intros [its H]. discriminate.
+  - intros [its H]. discriminate.
+Qed.
 End Premises.
 Print Assumptions C16_roundtrip.
 Print Assumptions C16_only_signed.
 Print Assumptions C16_forged_is_empty.
 Print Assumptions C16_malformed_is_empty.
 Print Assumptions C16_stamped_then_presented.
+Print Assumptions C16_history_refines_dict.
